@@ -202,6 +202,10 @@ fn c13_known_shape(c: &Case) -> bool {
 }
 
 fn check_case(c: &Case) -> Outcome {
+    if ds::has_colliding_keys(&c.val) {
+        // (not a document of the domain: two keys that are one key node for the reader)
+        return Outcome::Discard("colliding-keys");
+    }
     if c13_known_shape(c) {
         return Outcome::Discard("shape-with-open-C13-finding");
     }
